@@ -199,6 +199,7 @@ func propC20(c *Ctx) {
 			okInner = lm.isSourceRefElem(root)
 		}
 		c.Check("R20.1", "loadTasks/inner-loop", lt.Pos(), okInner, "one task per element of the integration's Sources")
+		checkOneTaskPerReferencedSource(c, "R20.1", lm, appendCall)
 	}
 	// settings from the looked-up source config
 	{
@@ -1317,4 +1318,135 @@ func enabledFilterOf(lm *loadTasksModel, s ssa.Value) bool {
 		}
 	}
 	return n > 0
+}
+
+// checkOneTaskPerReferencedSource (guards F-29): an integration that names one source twice must not get two
+// tasks – two runners would drive the same (source, integration) pair. Read: a set local to the integration
+// (made inside the loop over the integrations, outside the loop over its references), looked up with the
+// reference's source name; the task is appended only when the name was not in it; the name joins the set in
+// every iteration that goes on. Another way of comparing the names of two references is reported as present,
+// not decided; none at all is the defect.
+func checkOneTaskPerReferencedSource(c *Ctx, rule string, lm *loadTasksModel, appendCall *ssa.Call) {
+	w := c.W
+	lt := lm.fn
+	fName := w.Field("shovel/config", "Source", "Name")
+	const key = "loadTasks/one-task-per-referenced-source"
+	isRefName := func(v ssa.Value) bool {
+		root, ch := lm.chain(v)
+		return len(ch) >= 1 && ch[len(ch)-1] == fName && root != nil && lm.isSourceRefElem(root)
+	}
+	sameKey := func(a, b ssa.Value) bool { return isRefName(a) && isRefName(b) }
+	ok, detail := false, ""
+	present := false
+	lm.reg.AllInstrs(func(in ssa.Instruction) {
+		if ok {
+			return
+		}
+		lk, isLk := in.(*ssa.Lookup)
+		if !isLk || !isRefName(lk.Index) {
+			return
+		}
+		mk, isMk := stripConv(lm.reg.Resolve(stripConv(lk.X))).(*ssa.MakeMap)
+		if !isMk {
+			return
+		}
+		// a set: the element says nothing but "is in it"
+		switch et := mk.Type().Underlying().(*types.Map).Elem().Underlying().(type) {
+		case *types.Basic:
+			if et.Kind() != types.Bool {
+				return
+			}
+		case *types.Struct:
+			if et.NumFields() != 0 {
+				return
+			}
+		default:
+			return
+		}
+		present = true
+		fn := lk.Parent()
+		var seen ssa.Value = lk
+		if lk.CommaOk {
+			seen = nil
+			for _, ref := range *lk.Referrers() {
+				if e, isE := ref.(*ssa.Extract); isE && e.Index == 1 {
+					seen = e
+				}
+			}
+		}
+		if seen == nil {
+			return
+		}
+		_, fresh := boolEdges(seen)
+		var at ssa.Instruction
+		for _, x := range lm.reg.chain(appendCall) {
+			if x.Parent() == fn {
+				at = x
+			}
+		}
+		if len(fresh) == 0 || at == nil || !guardedByEdges(fn, at, fresh) {
+			detail = "a task is appended although the source was referenced before by this integration"
+			return
+		}
+		joins := false
+		allInstrs(fn, func(x ssa.Instruction) {
+			mu, isMu := x.(*ssa.MapUpdate)
+			if !isMu || stripConv(lm.reg.Resolve(stripConv(mu.Map))) != ssa.Value(mk) || !sameKey(mu.Key, lk.Index) {
+				return
+			}
+			if k, isK := mu.Value.(*ssa.Const); isK && k.Value != nil && k.Value.String() == "false" {
+				return
+			}
+			if every, found := passesEveryCompletedIteration(mu); found && every {
+				joins = true
+			}
+		})
+		if !joins {
+			detail = "a referenced source is not recorded: a second reference to it is not noticed"
+			return
+		}
+		// the set belongs to one integration: made inside the loop over the integrations (or in a helper that
+		// handles one integration), not once for all of them and not anew for every reference
+		inner := loopHeaderOf(lk)
+		if inner != nil && mk.Parent() == fn && naturalLoop(inner)[mk.Block()] {
+			detail = "the set of referenced sources is made anew for every reference: it never holds an earlier one"
+			return
+		}
+		if mk.Parent() == lt && loopHeaderOf(mk) == nil && inner != nil {
+			// made before both loops: shared by all integrations
+			outerOfInner := false
+			for _, b := range lt.Blocks {
+				if lp := naturalLoop(b); lp != nil && lp[inner] && b != inner {
+					outerOfInner = true
+				}
+			}
+			if outerOfInner {
+				detail = "the set of referenced sources is shared by all integrations: a source referenced by two integrations is refused"
+				return
+			}
+		}
+		ok, detail = true, "an integration that names one source twice gets one task for it at most (the second reference is refused or passed over): no pair has two runners"
+	})
+	if ok || detail != "" {
+		c.Check(rule, key, lt.Pos(), ok, detail)
+		return
+	}
+	// another way of telling two references to one source apart
+	other := false
+	for _, f := range lm.reg.Funcs() {
+		allInstrs(f, func(in ssa.Instruction) {
+			if b, isB := in.(*ssa.BinOp); isB && (b.Op == token.EQL || b.Op == token.NEQ) {
+				_, c1 := fieldChain(b.X)
+				_, c2 := fieldChain(b.Y)
+				if len(c1) > 0 && len(c2) > 0 && c1[len(c1)-1] == fName && c2[len(c2)-1] == fName {
+					other = true
+				}
+			}
+		})
+	}
+	if other || present {
+		c.OK(rule, key, lt.Pos(), "the names of two source references are compared, in a form that is not read: not decided")
+		return
+	}
+	c.Violation(rule, key, lt.Pos(), "nothing tells two references of one integration to the same source apart: each gets a task, two runners drive one (source, integration) pair")
 }
